@@ -214,10 +214,15 @@ impl<CS: CLCiphersuite> PoKSignature<CL03<CS>> {
                         return false;
                     }
 
-                    let boolean_rproofs_mi = CLSPoK
+                    let rproof_mi = CLSPoK
                         .range_proofs_commited_mi
                         .get(idx)
-                        .expect("index overflow")
+                        .expect("index overflow");
+                    if rproof_mi.E != cmi.value {
+                        println!("Commitment on 'mi' used in the PoK different from the one used in the Range Proof!");
+                        return false;
+                    }
+                    let boolean_rproofs_mi = rproof_mi
                         .verify::<CS::HashAlg>(
                             &gi,
                             &commitment_pk.h,
@@ -463,6 +468,10 @@ impl<CS: CLCiphersuite> ZKPoK<CL03<CS>> {
                 return false;
             }
             let rproof_mi = zkpok.range_proofs_mi.get(idx).expect("index overflow");
+            if rproof_mi.E != proof_mi.commitment.value {
+                println!("Commitment on m{} used in the PoK different from the one used in the Range Proof!", i);
+                return false;
+            }
             let boolean_rproof_mi =
                 rproof_mi.verify::<CS::HashAlg>(&ai, &signer_pk.b, &signer_pk.N, &min_x, &max_x);
             if !boolean_rproof_mi {
@@ -481,6 +490,11 @@ impl<CS: CLCiphersuite> ZKPoK<CL03<CS>> {
         );
         if !boolean_proof_r {
             println!("Verification of the Proof of Knowledge of r. Failed!");
+            return false;
+        }
+
+        if zkpok.range_proof_r.E != zkpok.proof_r.commitment.value {
+            println!("Commitment on r used in the PoK different from the one used in the Range Proof!");
             return false;
         }
 
